@@ -30,44 +30,74 @@ def run(tier, seed, only=None):
     types, nex, nsim, g, s = typecases.generate_types(tier, seed, d)
     if only is not None:
         types = only
+    rejected_total = [0]
+    minimal_total = [0]
+    nonmin_total = [0]
+    validated_total = [0]
+
+    def judge(types, obs, spelled):
+        """TLC judges every observation of one family; minimal rejections become verdicts"""
+        events = []
+        for o in obs:
+            events.append({"event": "Translate", "case": "%d/%s/%s" % (o["idx"], o["site"], o["mode"]),
+                           "site": o["site"], "mode": o["mode"], "lang": o["lang"], "rust": o["rust"],
+                           "ts": o["ts"], "zod": o["zod"]})
+        rejected = set()
+        for ci in range(0, len(events), CHUNK):
+            part = os.path.join(d, "trace-%s-%d.ndjson" % (spelled or "plain", ci))
+            C.write_ndjson(part, events[ci:ci + CHUNK])
+            consumed, mism, r = C.validate_trace("Trace_Types", "Trace_Types", part, timeout=3000, heap="12g")
+            if not consumed:
+                raise C.ToolError("trace not consumed")
+            validated_total[0] += len(events[ci:ci + CHUNK])
+            for m in mism:
+                o = obs[ci + m[1] - 1]
+                rejected.add((o["idx"], o["site"], o["mode"]))
+                o["gotkind"] = m[4]
+            os.remove(part)
+        by = {(o["idx"], o["site"], o["mode"]): o for o in obs}
+        minimal, nonmin = typecases.minimal_rejections(types, rejected)
+        for (idx, site, mode) in minimal:
+            o = by[(idx, site, mode)]
+            emitted = tsprint.show(o["ts"]) if o["lang"] == "ts" else tsprint.show_expr(o["zod"])
+            verdicts.reject(key_of(typecases.head_signature(types[idx]), site, mode), "got=" + str(o.get("gotkind")),
+                            "Rust type %s at site %s (mode %s) is emitted as `%s`, which does not denote serde's JSON shape"
+                            % (o["spelling"], site, mode, emitted),
+                            {"type": types[idx], "site": site, "mode": mode, "rust": o["spelling"], "emitted": emitted,
+                             "run_status": o["run_status"], "spelling": spelled or "plain"})
+        rejected_total[0] += len(rejected)
+        minimal_total[0] += len(minimal)
+        nonmin_total[0] += nonmin
+
     obs, failures, runs = typecases.observe_types(d, types)
     C.log("[c05] %d types, %d observations, %d generator runs (%.0fs)" % (len(types), len(obs), runs, time.time() - t0))
-    events = []
-    for o in obs:
-        events.append({"event": "Translate", "case": "%d/%s/%s" % (o["idx"], o["site"], o["mode"]),
-                       "site": o["site"], "mode": o["mode"], "lang": o["lang"], "rust": o["rust"],
-                       "ts": o["ts"], "zod": o["zod"]})
-    rejected = set()
-    validated = 0
-    for ci in range(0, len(events), CHUNK):
-        part = os.path.join(d, "trace-%d.ndjson" % ci)
-        C.write_ndjson(part, events[ci:ci + CHUNK])
-        consumed, mism, r = C.validate_trace("Trace_Types", "Trace_Types", part, timeout=3000, heap="12g")
-        if not consumed:
-            raise C.ToolError("trace not consumed")
-        validated += len(events[ci:ci + CHUNK])
-        for m in mism:
-            o = obs[ci + m[1] - 1]
-            rejected.add((o["idx"], o["site"], o["mode"]))
-            o["gotkind"] = m[4]
-        os.remove(part)
-    by = {(o["idx"], o["site"], o["mode"]): o for o in obs}
-    minimal, nonmin = typecases.minimal_rejections(types, rejected)
-    for (idx, site, mode) in minimal:
-        o = by[(idx, site, mode)]
-        emitted = tsprint.show(o["ts"]) if o["lang"] == "ts" else tsprint.show_expr(o["zod"])
-        verdicts.reject(key_of(typecases.head_signature(types[idx]), site, mode), "got=" + str(o.get("gotkind")),
-                        "Rust type %s at site %s (mode %s) is emitted as `%s`, which does not denote serde's JSON shape"
-                        % (o["spelling"], site, mode, emitted),
-                        {"type": types[idx], "site": site, "mode": mode, "rust": o["spelling"], "emitted": emitted,
-                         "run_status": o["run_status"]})
+    judge(types, obs, None)
+    # the same constructors spelled with their full paths (std::option::Option<..>, ::std::collections::HashMap<..>,
+    # std::string::String, crate::N0, anyhow::Result<..>): every type of depth <= 1 and every pair
+    qobs = []
+    if only is None:
+        shallow = [t for t in types if all(not rustgen.subterms(x) for x in rustgen.subterms(t)) or
+                   (t["k"] in ("tup", "res", "hmap") and all(len(rustgen.subterms(y)) == 0 for x in rustgen.subterms(t) for y in rustgen.subterms(x))
+                    and sum(1 for x in rustgen.subterms(t) if rustgen.subterms(x)) >= 2)]
+        rustgen.QUALIFIED_SPELLING = True
+        try:
+            qobs, qfail, qruns = typecases.observe_types(d, shallow)
+        finally:
+            rustgen.QUALIFIED_SPELLING = False
+        failures += qfail
+        runs += qruns
+        judge(shallow, qobs, "qualified")
+    validated = validated_total[0]
+    rejected = range(rejected_total[0])
+    minimal = range(minimal_total[0])
+    nonmin = nonmin_total[0]
     st = selftest(d, obs)
     rc = verdicts.finish()
     samples = [{"rust": o["spelling"], "site": o["site"], "mode": o["mode"],
                 "emitted": tsprint.show(o["ts"]) if o["lang"] == "ts" else tsprint.show_expr(o["zod"])}
                for o in obs[:: max(1, len(obs) // 6)][:6]]
     C.write_evidence(PROP, tier, seed, "exploration", {
-        "evaluations": len(obs),
+        "evaluations": len(obs) + len(qobs), "qualified_spelling_evaluations": len(qobs),
         "distinct_nontrivial": len({(o["key"], o["site"], o["mode"]) for o in obs if "<" in o["key"] or "(" in o["key"]}),
         "rule": "one evaluation = one Rust type expression at one translation site in one mode, judged by TLC; "
                 "distinct = distinct (abstract type, site, mode); non-trivial = the type has at least one constructor. "
